@@ -309,8 +309,7 @@ theorem varsize_stores_fit_partial (ty : Ty) (init : Init) (datasize : Nat) (len
           · simp [plan]
           · simp only [plan]
             split
-            · simp only [allFit_single, Op.fitsIn, decide_eq_true_eq, List.length_take]
-              intro op hop
+            · intro op hop
               simp only [List.mem_singleton] at hop
               subst hop
               simp only [Op.fitsIn, decide_eq_true_eq, List.length_take]
@@ -484,12 +483,15 @@ theorem sizeof_reports_allocated (limit size : Nat) (fs : Fields) (init : Option
       rw [← ha.2, hl, ← ha.1]
     | some i =>
       simp only at ha
-      cases hp : prepassStruct fs i size with
-      | error e => rw [hp] at ha; cases ha
-      | ok d =>
-        rw [hp] at ha
-        simp only [Except.ok.injEq, Prod.mk.injEq] at ha
+      split at ha
+      · simp only [Except.ok.injEq, Prod.mk.injEq] at ha
         rw [← ha.2, hl, ← ha.1]
+      · cases hp : prepassStruct fs i size with
+        | error e => rw [hp] at ha; cases ha
+        | ok d =>
+          rw [hp] at ha
+          simp only [Except.ok.injEq, Prod.mk.injEq] at ha
+          rw [← ha.2, hl, ← ha.1]
   · rename_i hv
     simp only [hv, Bool.false_eq_true, if_false]
     simp only [Except.ok.injEq, Prod.mk.injEq] at ha
